@@ -279,6 +279,10 @@ pub fn required_witnesses(body: &Node, doc: &[u8], o: &Outcome) -> Result<(BTree
             }
         }
     }
+    // signers the caller declared on the inputs builder
+    for k in &o.declared_signers {
+        keys.insert(w.keys[*k].hash_bytes.clone());
+    }
     // native scripts: hinted signers, otherwise every key hash in the script
     for it in &o.script_items {
         if !it.plutus {
